@@ -12,20 +12,24 @@ LEAN_MODULES = ['PMV.Props.C05']
 PARALLEL = True
 MANIFEST = {
     'text': 'Kernel-checked invariant theorems (PMV/Props/C05.lean) over a code-shaped, dump-level Lean model of the code that '
-            'creates and modifies polymath objects (constructor validation/normalisation, insert_deriv, clone, copy, '
-            'without_deriv(s), delete_deriv(s), as_readonly, as_float, broadcast_to, the low-level setters, __setstate__): '
-            'the constructor returns an error or a well-formed object for ANY raw input, every operation preserves '
-            'well-formedness, hence every object produced by ANY list of these operations is well-formed (induction over '
-            'the list); WF is the conjunction of the property statement with class constraints taken from a table '
-            'regenerated from the live classes on every run. Tie: (1) an introspection-driven sweep calls every public '
-            'callable of the 10 classes with generated arguments (sequences, after in-place mutation, after pickling), '
-            'dumps every Qube found in the results and has the compiled Lean predicate judge the dump, compared clause '
-            'by clause with a Python transcription; (2) one-step correspondence of the modelled operations: the model '
-            'applied to the dumps of the real operands must predict the dump of the real result.',
+            'creates and modifies polymath objects (constructor validation/normalisation incl. Vector.__init__, insert_deriv(s) '
+            'with the as_float / broadcast_to conversions through the constructor, delete_deriv(s), clone, wod, copy, '
+            'without_deriv, as_readonly, as_float, broadcast_to, the low-level setters, __setstate__): ctor_wf (error or a '
+            'well-formed object for ANY raw input), insertDeriv_wf, one preservation theorem per operation, step_wf and '
+            'reachable_wf (every object produced by ANY list of the 16 operations with ANY arguments on well-formed starts '
+            'is well-formed; induction over the list); WF is the conjunction of the property statement with class '
+            'constraints taken from a table regenerated from the live classes on every run, and sanity theorems show that '
+            'WF implies each clause. Tie: (1) an introspection-driven sweep calls every public callable of the 10 classes '
+            'with generated arguments (sequences, after in-place mutation, after pickling), dumps every Qube found in the '
+            'results and has the compiled Lean predicate judge the dump, compared clause by clause with a Python '
+            'transcription, plus str()/repr(); (2) one-step correspondence of the modelled operations: the model applied '
+            'to the dumps of the real operands must predict the dump of the real result (or the error).',
     'design': 'DESIGN.md §3 C05, DESIGN.d/C05.md',
     'technique': 'Lean 4 proof (invariant by induction over operation lists) + T2 class table + model/code correspondence + API sweep monitor',
-    'note': 'Methods outside the modelled primitives are monitored (sweep), not proved. Trusted: Lean kernel; the dump function '
-            '(harness/c05_dump.py); the hand-written model Model/WF.lean (checked by the one-step correspondence).',
+    'note': 'Public methods outside the modelled operations are instances of "compute arrays, call the constructor / the setters, '
+            'insert derivatives" only by inspection; that they keep to this discipline is monitored by the sweep, not proved. '
+            'Trusted: Lean kernel; the dump function (harness/c05_dump.py); the hand-written model Model/WF.lean (checked by '
+            'the one-step correspondence). Open finding KF-C05-5 (in-place mutation of a handed-out derivative object).',
 }
 RULE = ('sweep: for every class and every public attribute found by introspection (methods, static/class methods, properties, '
         'class constants, operators, constructor, pickle and deepcopy round trips) several programs whose last call is that '
@@ -37,8 +41,10 @@ ASSUMPTIONS = [
     'callers of the private setters _set_values_/_set_mask_ pass values of a numeric kind the class permits and Python-bool or '
     'bool-array masks (hypothesis `setterGuard` of the step function; the public callers are swept)',
     'a call that raises yields no object; what a rejected call leaves behind in its operands is property C19',
-    'the numeric content of arrays is not modelled: arrays are (shape, kind, WRITEABLE); array sharing is not modelled '
-    '(the one-step correspondence re-reads the real dumps before every step)',
+    'the numeric content of arrays is not modelled: arrays are (shape, kind, WRITEABLE); array sharing, array identity and '
+    'the object cache are not modelled (the one-step correspondence re-reads the real dumps before every step and does '
+    'not generate the steps whose outcome depends on them: first mask bit under broadcast_to(()), a stale cached wod twin, '
+    'pickling an object that holds the same ndarray twice, in-place calls on a handed-out derivative object, Boolean.as_float)',
     'interpretation: "bookkeeping agrees with the arrays" includes the read-only flag (a read-only object has no writable array) '
     'and the numeric kind of the default value (the unpickler builds arrays of the default\'s kind)',
 ]
